@@ -198,8 +198,10 @@ let judge_amdp cc ic =
 let judge_generic clause site nt tag ic =
   check_abnormal ic site;
   let runs = read_runs ic in
-  check_equal clause site runs;
-  (nt, tag)
+  (match runs with
+   | [["CHILD_TIMEOUT"]] -> (false, tag ^ "_not_converging")        (* termination of the solver is not this property *)
+   | [[t]] when String.length t > 13 && String.sub t 0 13 = "CHILD_SIGNAL_" -> oracle_fail "no_crash" site t
+   | _ -> check_equal clause site runs; (nt, tag))
 
 let judge (_id : int) (cc : cursor) (ic : cursor) : bool * string =
   let kind = next cc in
